@@ -34,7 +34,7 @@ INFO = {
 MANDATORY = {'deep': ['verdict-equals-chain-predicate', 'reference-accepts-the-valid-chain'],
              'chain': ['verdict-equals-chain-predicate'], 'ctor': ['constructor-checks-anchor'],
              'ctor_roots': ['constructor-checks-anchor'], 'history': ['verdict-independent-of-history'],
-             'seq': ['verdict-independent-of-history']}
+             'seq': ['verdict-independent-of-history'], 'concurrent': ['verdict-independent-of-history']}
 
 SCHEMA = '''
 #KEY: "KEY"/_/_/_
@@ -617,6 +617,63 @@ def h_seq(eng, case):
     eng.reach('end')
 
 
+def h_concurrent(eng, case):
+    """many packets validated at the same time by one validator: each verdict is the packet's own chain predicate"""
+    import ndn.encoding as enc
+    from ndn.app_support.light_versec import Checker, lvs_validator, compile_lvs
+    D, N = case['depth'], case['packets']
+    text = chain_schema(D)
+    key = ('deep', D)
+    if key not in _C:
+        _C[key] = (compile_lvs(text), lvsref.Schema(text))
+    model, rschema = _C[key]
+    W = build_chain(eng, D, case['kinds'], 'none', 0)
+    leaf, other = W['signers'][D - 1], W['other_signer']
+    bad = eng.choice(N, 'bad')                       # one of them is signed by a key that may not sign it
+    packets = []
+    for i in range(N):
+        s = other if i == bad else leaf
+        packets.append(tobytes(enc.make_data('/k/d/%d' % i, enc.MetaInfo(), b'payload', s)))
+    expect = [ref_chain(W, rschema, p) for p in packets]
+    app, face = appenv.make_app('v1')
+    face.requests = []
+    out = {}
+
+    async def main(loop):
+        ml = asyncio.ensure_future(app.main_loop())
+        await asyncio.sleep(0)
+        repo = asyncio.ensure_future(repository(app, face, W['certs'], W['behaviour'], eng))
+        val = lvs_validator(Checker(model, {}), app, W['anchor'][1])
+
+        async def one(p):
+            name, meta, content, sig = enc.parse_data(p)
+            try:
+                return await val(name, sig)
+            except Exception as e:
+                return ('exc', exc_sig(e))
+        res = await asyncio.gather(*[one(p) for p in packets])
+        repo.cancel()
+        app.shutdown()
+        try:
+            await ml
+        except Exception:
+            pass
+        return res
+    loop, r, err = appenv.run(eng, main, max_steps=200000)
+    if r is None:
+        eng.fail('validation-terminates', 'deadlock')
+        return
+    for i, got in enumerate(r):
+        if isinstance(got, tuple):
+            eng.fail('validator-returns-a-verdict', got[1])
+            continue
+        eng.check(bool(got) == bool(expect[i]), 'verdict-independent-of-history',
+                  {'packet': i, 'of': N, 'got': repr(got), 'expected': bool(expect[i])},
+                  sig='%s-while-%d-others-are-validated' % ('accepts' if got else 'rejects', N - 1))
+    eng.observe('accepted', sum(1 for g in r if g is True))
+    eng.reach('end')
+
+
 CTOR_SCHEMAS = {
     # two roots of trust whose names are disjoint: no anchor matches both
     'two-roots-disjoint': '#KEY: "KEY"/_/_/_\n#root: /"k"/#KEY\n#root2: /"j"/#KEY\n#d: /"k"/"d"/_ <= #root\n#e: /"j"/"e"/_ <= #root2\n',
@@ -724,7 +781,7 @@ def h_history(eng, case):
     eng.reach('end')
 
 
-HARNESSES = {'seq': h_seq, 'deep': h_deep, 'ctor_roots': h_ctor_roots, 'chain': h_chain, 'ctor': h_ctor, 'history': h_history}
+HARNESSES = {'concurrent': h_concurrent, 'seq': h_seq, 'deep': h_deep, 'ctor_roots': h_ctor_roots, 'chain': h_chain, 'ctor': h_ctor, 'history': h_history}
 
 FAULTS = ['none', 'issuer-not-allowed', 'sig-corrupt', 'key-substituted', 'cert-nack', 'cert-timeout', 'unsigned',
           'locator-loop', 'name-outside-schema', 'mid-signed-by-other']
@@ -769,6 +826,9 @@ def cases(tier, seed):
     for D, kinds in ((2, ['rsa', 'ecdsa']),) if tier == 'quick' else ((1, ['ecdsa']), (2, ['rsa', 'ecdsa']), (3, ['hmac', 'ecdsa', 'rsa'])):
         for n in (1, 2, 3):
             cs.append(('seq', {'depth': D, 'kinds': kinds, 'len': n}, {'weight': 5 ** n}))
+    for D, kinds, N in ((2, ['rsa', 'ecdsa'], 20), (3, ['hmac', 'ecdsa', 'rsa'], 12)) if tier == 'quick' else \
+            ((1, ['ecdsa'], 40), (2, ['rsa', 'ecdsa'], 40), (3, ['hmac', 'ecdsa', 'rsa'], 24), (4, ['rsa', 'ecdsa', 'hmac', 'ecdsa'], 16)):
+        cs.append(('concurrent', {'depth': D, 'kinds': kinds, 'packets': N}, {'weight': 30}))
     for sch in CTOR_SCHEMAS:
         for kind in ('rsa', 'hmac'):
             cs.append(('ctor_roots', {'schema': sch, 'anchor_kind': kind}))
